@@ -279,7 +279,9 @@ def drive(case, evaluator, emit, snapshot, hooks):
         emit(0, K_S, 0)
 
     def arm(t_budget):
-        """sentinels of the search() call / evaluator budget that starts now"""
+        """sentinels of the search() call / evaluator budget that starts AFTER this call (so every deadline below is early)"""
+        # first of all (starting the timer threads may take long on a loaded machine): the early sentinel is due 0.5 s before the deadline
+        early["at"], early["fired"] = time.time() + t_budget - 0.5, False
         ts = [threading.Timer(t_budget + 0.4, emit, (0, K_S, 0)), threading.Timer(t_budget + 1.9, second_sentinel)]
         for t in ts:
             t.daemon = True
@@ -288,7 +290,6 @@ def drive(case, evaluator, emit, snapshot, hooks):
         # the early sentinel is a timer of the evaluator's own event loop, due 0.5 s before the deadline and set at the first submit
         # of the call: the loop fires its timers in the order of their deadlines, so it precedes the wait_for timeouts of a fresh
         # budget whatever the load (the budget starts after this point, so the margin is at least 0.5 s)
-        early["at"], early["fired"] = time.time() + t_budget - 0.5, False
 
         def after_submit():
             hooks["after_submit"] = None
@@ -349,8 +350,8 @@ def drive(case, evaluator, emit, snapshot, hooks):
     with tempfile.TemporaryDirectory(prefix="vp_c14_") as d:
         if mode == "evaluator":
             # evaluator-level timeout with more jobs submitted than workers: some jobs are still queued at the deadline
-            evaluator.timeout = T
             arm(T)
+            evaluator.timeout = T
             evaluator.submit([{"x": float(i)} for i in range(case["njobs"])])
             jobs = evaluator.gather("ALL")
             evaluator.close()
@@ -443,7 +444,8 @@ def drive(case, evaluator, emit, snapshot, hooks):
         for t in timers:
             t.cancel()
         tr = snapshot()
-        late = sum(1 for e in tr[n_at_return:] if e[1] in (K_START, K_POLL, K_RET))
+        k0 = case["njobs1"] if mode == "close_then_search" else 0  # jobs given up by close() may still run in a pool worker
+        late = sum(1 for e in tr[n_at_return:] if e[1] in (K_START, K_POLL, K_RET) and e[0] >= k0)
     return table, late, tr, extra
 
 
